@@ -7,6 +7,8 @@ import JSight.AstTextTree
 import JSight.AnnotExamples
 import JSight.ATreeStrip
 import JSight.ATreeExamples
+import JSight.AstTextQ
+import JSight.AnnotQExamples
 /-!
 # C16 — GetAST mirrors the schema text: the decision logic that is a theorem
 
@@ -289,5 +291,50 @@ theorem C16_ast_of_annotated_tree (w0 : Gap) (t : ATree) (w1 : Gap) (hc : t.isCo
   exact ⟨st, by simp only [AstText.astOfText, h1], h2, h3⟩
 
 example := C16_ast_of_annotated_tree [] AT.Ex.t1 [] rfl AT.Ex.t1_line AT.Ex.t1_tok
+
+end Props.C16
+
+namespace Props.C16
+open Lay SchemaScan
+
+/-! ## annotated scalar with QUOTED rule names, text → AST (work package c02text3; module `AstTextQ`)
+
+The bare-name restriction of `C16_ast_of_annotated_tree_partial` is gone: the rule object is of the extended grammar
+`Lay.GObj` — names bare or quoted (any JSON string, `\uXXXX` included), here with literal values —, and the AST shows the
+DECODED names. Still excluded (explicit, decidable): rules named `enum` / `allOf` / `or` (their list values go through the
+AST builder's item reader, which is tied by `c16-text`, not proved), and the note together with quoted names. -/
+
+/-- **annotated scalar with quoted / bare rule names, text → AST**: the model's AST of the TEXT is the AST of the TREE
+(value token, (decoded name, value) pairs in written order) -/
+theorem C16_ast_of_annotated_tree_quoted_partial (a : Ann) (ha : a.isAnn = true) (tok s1 s2 : List UInt8) (ob : GObj)
+    (s3 tl : List UInt8) (hv : GAnnValid a tok s1 s2 ob s3 tl) (hl : ob.literalValues)
+    (he : ∀ p ∈ ob.pairs, p.1 ∉ AstText.embNames) :
+    AstText.astOfText (gannText a tok s1 s2 ob s3 tl) = AstText.astOfScalar tok ob.pairs [] :=
+  AstText.ast_gannot a ha tok s1 s2 ob s3 tl hv hl he
+
+/-- **GetAST does not show how a rule name was spelled**: quoted, escaped or bare, in either annotation form and any
+layout — the same AST -/
+theorem C16_ast_ignores_name_quoting (a a' : Ann) (ha : a.isAnn = true) (ha' : a'.isAnn = true) (tok : List UInt8)
+    (s1 s2 : List UInt8) (ob : GObj) (s3 tl : List UInt8) (s1' s2' : List UInt8) (ob' : GObj) (s3' tl' : List UInt8)
+    (hv : GAnnValid a tok s1 s2 ob s3 tl) (hv' : GAnnValid a' tok s1' s2' ob' s3' tl')
+    (hl : ob.literalValues) (hl' : ob'.literalValues)
+    (hsame : ob.pairs = ob'.pairs) (he : ∀ p ∈ ob.pairs, p.1 ∉ AstText.embNames) :
+    AstText.astOfText (gannText a tok s1 s2 ob s3 tl) = AstText.astOfText (gannText a' tok s1' s2' ob' s3' tl') :=
+  AstText.ast_quoting a a' ha ha' tok s1 s2 ob s3 tl s1' s2' ob' s3' tl' hv hv' hl hl' hsame he
+
+/-! Non-vacuity: `1 // {"min": 0, "max" :5, }` and `1 /*⏎ {min: 0,⏎ max: 5⏎}⏎*/⏎` -/
+theorem exQPairs_not_emb : ∀ p ∈ Lay.Ex.gobQ.pairs, p.1 ∉ AstText.embNames := by
+  rw [Lay.Ex.gsame_pairs]; decide +kernel
+
+theorem gobB_lits : Lay.Ex.gobB.literalValues := by
+  intro r hr
+  simp only [Lay.Ex.gobB, GObj.allRules, List.mem_cons, List.not_mem_nil, or_false] at hr
+  rcases hr with rfl | rfl <;> exact ⟨_, rfl⟩
+
+example := C16_ast_of_annotated_tree_quoted_partial .inline rfl Lay.Ex.one [32] [32] Lay.Ex.gobQ [] [] Lay.Ex.gannQ_valid
+  Lay.Ex.gobQ_lits exQPairs_not_emb
+example := C16_ast_ignores_name_quoting .inline .multi rfl rfl Lay.Ex.one [32] [32] Lay.Ex.gobQ [] [] [32] [10, 32]
+  Lay.Ex.gobB [10] [42, 47, 10] Lay.Ex.gannQ_valid Lay.Ex.gannB_valid Lay.Ex.gobQ_lits gobB_lits Lay.Ex.gsame_pairs
+  exQPairs_not_emb
 
 end Props.C16
